@@ -306,7 +306,7 @@ pub fn engine_of(prop: &str) -> Option<Box<dyn Engine>> {
             parts: vec![(1, Box::new(HistEngine { alloc_faults: true, ..hist("C17", None, 60_000, 2000000) })), (1, Box::new(crate::twin::CapEngine { quick_runs: 60_000, thorough_runs: 1_500_000 })), (1, Box::new(crate::stdctor::StdCtorEngine { prop: "C17", focus: C17, quick_runs: 60_000, thorough_runs: 1_500_000 }))],
         }),
         "C18" => Box::new(crate::twin::HashEngine { quick_runs: 120_000, thorough_runs: 2_000_000 }),
-        "C05" => Box::new(crate::complexity::CxEngine { quick_runs: 1_200, thorough_runs: 2_500 }),
+        "C05" => Box::new(crate::complexity::CxEngine { quick_runs: 1_200, thorough_runs: 1_200 }),
         "C10" => Box::new(crate::crash::CrashEngine { quick_runs: 150_000, thorough_runs: 3_000_000 }),
         _ => return None,
     })
